@@ -782,3 +782,11 @@ Proof.
     as [[B1 B2] [[M1 M2] _]]. fold out in B1, B2, M1, M2.
   split; [exact Hx|]. split; [lra|]. apply Rabs_le. lra.
 Qed.
+
+(* the hypotheses of the component theorems are met by a concrete design at its lower bound *)
+Lemma nonvacuous_component :
+  (0 <= 0 <= 1 /\ 0 < 1 /\ 0 < 1 / 10 /\ 0 < 1 / 10 < 1 /\ 0 < 1 / 2) /\
+  alfa_of (1 / 10) (1 / 10) 0 0 1 (1 / 2) = 0 /\ beta_of (1 / 10) (1 / 10) 0 0 1 (1 / 2) = 1 / 10.
+Proof.
+  split; [lra|]. unf. split; mm; lra.
+Qed.
